@@ -13,6 +13,9 @@ import (
 type Scenario struct {
 	Mode   string   `json:"mode"`
 	Stores int      `json:"stores"`
+	// TiFlash: one more store labelled engine=tiflash holds a (learner) peer of every region; it never leads.
+	// Removing and re-adding TiKV followers then lists TiKV peers BEHIND the TiFlash peer in the region description
+	TiFlash bool `json:"tiflash,omitempty"`
 	Splits []string `json:"splits"` // initial region borders (raw keys)
 	// region cache TTL knobs (locate.SetRegionCacheTTLWithJitter), inputs of the run
 	TTLSec    int64 `json:"ttl_sec"`
@@ -269,6 +272,7 @@ func genScenario(cfg simkit.RunConfig, mode string) *Scenario {
 	r := simkit.Rand(cfg.Seed, "gen")
 	sc := &Scenario{Mode: mode}
 	sc.Stores = 1 + r.Intn(3)
+	sc.TiFlash = sc.Stores >= 2 && r.Intn(3) == 0
 	nSplits := r.Intn(6)
 	perm := r.Perm(len(borders))
 	for _, i := range perm[:nSplits] {
